@@ -1,8 +1,8 @@
 SPECIFICATION TraceSpec
 CONSTANTS
   TargetIds = {1}
-  MountModes = {"none"}
-  SecretModes = {"none"}
+  MountCfgIds = {1}
+  SecretIds = {1}
 CONSTRAINT Mark
 POSTCONDITION Accepted
 CHECK_DEADLOCK FALSE
